@@ -491,7 +491,7 @@ impl World for Multi {
         let shape: Vec<Vec<u8>> = case.layout.iter().map(|m| m.keys().copied().collect()).collect();
         let idxs: Vec<usize> = if case.only.is_empty() { (0..cat.len()).collect() } else { case.only.clone() };
         for ci in idxs {
-            let (tuple, f) = cat[ci];
+            let (tuple, f, f_panicking) = cat[ci];
             out.evaluations += 1;
             out.steps += 1;
             let vals: Vec<u32> = tuple.iter().map(|_| { next += 1; next }).collect();
@@ -500,6 +500,36 @@ impl World for Multi {
             sorted.dedup();
             let repeats = sorted.len() != tuple.len();
             let missing = tuple.iter().any(|t| model.find(*t).is_none());
+            // the panicking accessor first: it must panic exactly when the request is invalid
+            {
+                let mut sorted = tuple.to_vec();
+                sorted.sort();
+                sorted.dedup();
+                let invalid = sorted.len() != tuple.len() || tuple.iter().any(|t| model.find(*t).is_none());
+                let pvals: Vec<u32> = tuple.iter().map(|_| { next += 1; next }).collect();
+                match (f_panicking(&mut st, &pvals), invalid) {
+                    (None, true) => bump(&mut out.counters, "probe:panicking multi-borrow panicked on an invalid request", 1),
+                    (Some(MultiOutcome::Refs { addrs, .. }), false) => {
+                        let mut a = addrs.clone();
+                        a.sort();
+                        a.dedup();
+                        if a.len() != addrs.len() {
+                            out.violation = Some((Violation::new("multi-borrow-aliasing", format!("get_multiple_mut {tuple:?}: {} references to {} distinct objects", addrs.len(), a.len())), MultiCase { layout: case.layout.clone(), only: vec![ci] }));
+                            break;
+                        }
+                        for (t, v) in tuple.iter().zip(&pvals) {
+                            model.set(*t, *v as u64);
+                        }
+                    }
+                    (got, inv) => {
+                        out.violation = Some((
+                            Violation::new(format!("multi-borrow-panicking-decision arity={} invalid={inv}", tuple.len()), format!("get_multiple_mut {tuple:?} over layout {:?}: {} although the request is {}", case.layout, if got.is_some() { "returned references" } else { "panicked" }, if inv { "invalid (repeated or missing type)" } else { "valid" })),
+                            MultiCase { layout: case.layout.clone(), only: vec![ci] },
+                        ));
+                        break;
+                    }
+                }
+            }
             let real = f(&mut st, &vals);
             let kind = match (&real, repeats, missing) {
                 (MultiOutcome::Repeat, true, _) => {
